@@ -13,7 +13,7 @@ LEVEL = "exploration"
 RULE = ("every built-in data command x shapes of rank 1-3 incl. length-1 axes x common cell permutation x reshape to another rank; "
         "element-wise commands on rasters of 1-2.1 million cells compared window by window with the command run on the window alone; "
         "distinct by (command, n, source shape rank, target rank, has length-1 axis, dtypes, mask class)")
-REQUIRED_COUNTERS = ["shape_postconditions", "permutation_checks", "reshape_checks", "layout_checks", "model_reshape_checks", "large_rasters_checked", "window_checks"]
+REQUIRED_COUNTERS = ["shape_postconditions", "permutation_checks", "reshape_checks", "layout_checks", "model_reshape_checks", "large_rasters_checked", "window_checks", "direct_execute_cases", "same_path_rearrangements"]
 ASSUMPTIONS = ["z-score commands compared with 1e-9 tolerance (float summation order), all others bit-exact on the dyadic lattice",
                "commands raising the same specific error on both sides are not judged"]
 
@@ -175,10 +175,12 @@ def run_model(ctx, case):
     from mpv import models
     model = case["model"]
     variants = []
+    dirs = []
     for shape in (case["shape_a"], case["shape_b"]):
         m = copy.deepcopy(model)
         m["table"]["shape"] = list(shape)
         d = ctx.scratch()
+        dirs.append(d)
         try:
             prog = models.load(m, d)
             prog.run()
@@ -203,6 +205,30 @@ def run_model(ctx, case):
         dd = _same(by.get(n, ""), a, b)
         if dd:
             ctx.fail("%s:cells-not-independent:reshape:in-model" % by.get(n, "?"), {"result": n, "diff": dd, "shape_a": sa, "shape_b": sb})
+            return
+    # the input file regenerated *in place* with its cells in reverse order (same path, same size in bytes), the model loaded
+    # and run again in this process: every result follows the rearrangement
+    m = copy.deepcopy(model)
+    m["table"]["shape"] = list(sa)
+    for c in m["table"]["cols"].values():
+        c["data"] = list(reversed(c["data"]))
+    ctx.count("same_path_rearrangements")
+    try:
+        prog = models.load(m, dirs[0])
+        prog.run()
+        rc = {n: c._result for n, c in prog.commands.items() if isinstance(c._result, numpy.ndarray)}
+    except Exception as e:
+        ctx.fail("model:rearranged-input-at-the-same-path-changes-outcome", {"error": repr(e)[:200], "shape": sa})
+        return
+    for n, a in ra.items():
+        c = rc.get(n)
+        if c is None or tuple(c.shape) != tuple(sa):
+            ctx.fail("%s:shape:in-model" % by.get(n, "?"), {"result": n, "got": list(getattr(c, "shape", [])), "want": list(sa)})
+            return
+        back = numpy.ma.array(numpy.ma.getdata(c).reshape(-1)[::-1].reshape(sa), mask=numpy.ma.getmaskarray(c).reshape(-1)[::-1].reshape(sa))
+        dd = _same(by.get(n, ""), a, back)
+        if dd:
+            ctx.fail("%s:cells-not-independent:input-file-rearranged-in-place:in-model" % by.get(n, "?"), {"result": n, "diff": dd, "shape": sa})
             return
 
 
@@ -238,7 +264,12 @@ def run_case(ctx, case):
     ctx.feature((cmd, len(base_specs), len(shape), len(case["reshape"]), 1 in shape, tuple(sorted(set(s["dtype"] for s in base_specs))),
                  any(s["mask"] and any(s["mask"]) for s in base_specs)))
     inputs = [arr.build(s) for s in base_specs]
-    out, _ = arr.run_cmd(cmd, inputs, params, fuzzy_inputs=fuzzy_in)
+    run = arr.run_cmd
+    if sum(case["perm"][:4]) % 7 == 0:
+        # driven the way the repository's tests drive commands: execute() called directly, the same parameter objects every time
+        run = arr.run_direct
+        ctx.count("direct_execute_cases")
+    out, _ = run(cmd, inputs, params, fuzzy_inputs=fuzzy_in)
     rk = "rank%d" % len(shape)
     if out.ok:
         ctx.count("shape_postconditions")
@@ -256,7 +287,7 @@ def run_case(ctx, case):
         return t
 
     pin = [arr.build(permuted(s)) for s in base_specs]
-    pout, _ = arr.run_cmd(cmd, pin, params, fuzzy_inputs=fuzzy_in)
+    pout, _ = run(cmd, pin, params, fuzzy_inputs=fuzzy_in)
     ctx.count("permutation_checks")
     if out.ok != pout.ok or (not out.ok and type(out.exc) is not type(pout.exc)):
         ctx.fail("%s:permutation-changes-outcome" % cmd, {"base": out.err and (out.inner() or out.err), "permuted": pout.err and (pout.inner() or pout.err), "params": params})
@@ -282,7 +313,7 @@ def run_case(ctx, case):
             return numpy.ma.array(d2, mask=m2) if a.mask is not numpy.ma.nomask else numpy.ma.array(d2)
         how = "F" if sum(case["perm"][:3]) % 2 == 0 else "T-view"
         lin = [relaid(a, how) for a in inputs]
-        lout, _ = arr.run_cmd(cmd, lin, params, fuzzy_inputs=fuzzy_in)
+        lout, _ = run(cmd, lin, params, fuzzy_inputs=fuzzy_in)
         ctx.count("layout_checks")
         if out.ok != lout.ok:
             ctx.fail("%s:memory-layout-changes-outcome" % cmd, {"layout": how, "base": out.err, "relaid": lout.err and (lout.inner() or lout.err)})
@@ -302,7 +333,7 @@ def run_case(ctx, case):
         return t
 
     rin = [arr.build(reshaped(s)) for s in base_specs]
-    rout, _ = arr.run_cmd(cmd, rin, params, fuzzy_inputs=fuzzy_in)
+    rout, _ = run(cmd, rin, params, fuzzy_inputs=fuzzy_in)
     ctx.count("reshape_checks")
     nk = "rank%d" % len(new)
     if out.ok != rout.ok or (not out.ok and type(out.exc) is not type(rout.exc)):
